@@ -45,3 +45,24 @@ Print Assumptions C03_linear_in_ket.
 Example C03_rdm_example : m_rdm 2 true [true; false] [(1%N, 0%N, (1, 0)%Z)] [(1%N, 0%N, (1, 0)%Z)]
   = [(1, 0)%Z; (0, 0)%Z; (0, 0)%Z; (0, 0)%Z].
 Proof. vm_compute. reflexivity. Qed.
+
+(* every RDM tensor inherits the CAR: exchanging two adjacent creators (annihilators) of different spin
+   orbitals anywhere in the pattern flips the sign of <bra| ... |ket> - any bra, ket, pattern, ring *)
+From FQE Require Import Sort RdmThm.
+Theorem C03_matel_antisymmetric_creators :
+  forall (R : Type) (rO rI : R) (radd rmul rsub : R -> R -> R) (ropp : R -> R),
+  ring_theory rO rI radd rmul rsub ropp eq ->
+  forall (rconj : R -> R) (p q : nat) (a b : list lop) (bra ket : vec R), p <> q ->
+  inner R rO radd rmul rconj bra (act_string R ropp (a ++ [mkop p true; mkop q true] ++ b) ket) =
+  ropp (inner R rO radd rmul rconj bra (act_string R ropp (a ++ [mkop q true; mkop p true] ++ b) ket)).
+Proof. exact matel_antisymmetric_creators. Qed.
+Print Assumptions C03_matel_antisymmetric_creators.
+
+Theorem C03_matel_antisymmetric_annihilators :
+  forall (R : Type) (rO rI : R) (radd rmul rsub : R -> R -> R) (ropp : R -> R),
+  ring_theory rO rI radd rmul rsub ropp eq ->
+  forall (rconj : R -> R) (p q : nat) (a b : list lop) (bra ket : vec R), p <> q ->
+  inner R rO radd rmul rconj bra (act_string R ropp (a ++ [mkop p false; mkop q false] ++ b) ket) =
+  ropp (inner R rO radd rmul rconj bra (act_string R ropp (a ++ [mkop q false; mkop p false] ++ b) ket)).
+Proof. exact matel_antisymmetric_annihilators. Qed.
+Print Assumptions C03_matel_antisymmetric_annihilators.
